@@ -179,6 +179,18 @@ func (rb *ResponseBuffer) Write(buf []byte) (int, error) {
 	return rb.Buffer.Write(buf)
 }
 
+// Flush implements http.Flusher. A response that is being buffered cannot
+// be flushed (flushing the underlying ResponseWriter would commit its header
+// before the buffered one is known); a streamed response is flushed as usual.
+func (rb *ResponseBuffer) Flush() {
+	if !rb.wroteHeader {
+		rb.WriteHeader(http.StatusOK)
+	}
+	if rb.stream {
+		rb.ResponseWriterWrapper.Flush()
+	}
+}
+
 // Buffered returns whether rb has decided to buffer the response.
 func (rb *ResponseBuffer) Buffered() bool {
 	return !rb.stream
